@@ -5,3 +5,4 @@ import PulserModel.Sequence
 import PulserModel.Layout
 import PulserModel.Geometry
 import PulserModel.Hamiltonian
+import PulserModel.Measure
